@@ -286,6 +286,7 @@ class Molecule(BigSMILESbase):
 
                 if isinstance(element, SmilesToken) and isinstance(next_element, Stochastic):
                     total_weight = 0
+                    num_options = 0
                     for other_bd in next_element.bond_descriptors:
                         if (
                             graph_bd.is_compatible(other_bd)
@@ -293,18 +294,19 @@ class Molecule(BigSMILESbase):
                             and bond_descriptors[other_bd] in next_element.repeat_tokens
                         ):
                             total_weight += other_bd.weight
-                    # total_weight = 1
-                    if total_weight >= 0 and total_weight < 1e-16:
-                        total_weight = 1
+                            num_options += 1
                     for other_bd in next_element.bond_descriptors:
                         if (
                             graph_bd.is_compatible(other_bd)
                             and other_bd.is_compatible(next_element.left_terminal)
                             and bond_descriptors[other_bd] in next_element.repeat_tokens
                         ):
-                            G.add_edge(
-                                graph_bd, other_bd, trans_prob=other_bd.weight / total_weight
-                            )
+                            # All weights zero means a uniform pick, as in the generation.
+                            if total_weight > 0:
+                                trans_prob = other_bd.weight / total_weight
+                            else:
+                                trans_prob = 1.0 / num_options
+                            G.add_edge(graph_bd, other_bd, trans_prob=trans_prob)
 
                 if isinstance(element, Stochastic) and isinstance(next_element, SmilesToken):
                     for other_bd in next_element.bond_descriptors:
@@ -318,6 +320,7 @@ class Molecule(BigSMILESbase):
 
                 if isinstance(element, Stochastic) and isinstance(next_element, Stochastic):
                     total_weight = 0
+                    num_options = 0
                     for other_bd in next_element.bond_descriptors:
                         if (
                             graph_bd.is_compatible(other_bd)
@@ -327,9 +330,7 @@ class Molecule(BigSMILESbase):
                             and bond_descriptors[graph_bd] in element.repeat_tokens
                         ):
                             total_weight += other_bd.weight
-                    # total_weight = 1
-                    if total_weight >= 0 and total_weight < 1e-16:
-                        total_weight = 1
+                            num_options += 1
                     for other_bd in next_element.bond_descriptors:
                         if (
                             graph_bd.is_compatible(other_bd)
@@ -338,9 +339,12 @@ class Molecule(BigSMILESbase):
                             and graph_bd.is_compatible(element.right_terminal)
                             and bond_descriptors[graph_bd] in element.repeat_tokens
                         ):
-                            G.add_edge(
-                                graph_bd, other_bd, trans_prob=other_bd.weight / total_weight
-                            )
+                            # All weights zero means a uniform pick, as in the generation.
+                            if total_weight > 0:
+                                trans_prob = other_bd.weight / total_weight
+                            else:
+                                trans_prob = 1.0 / num_options
+                            G.add_edge(graph_bd, other_bd, trans_prob=trans_prob)
 
         validate_graph(G)
         return G
